@@ -44,12 +44,17 @@ def fixed_programs():
         "as/2": [clause(C("as", X, Y), conj(call(C("n", X)), call(C("assertz", C("d", C("h", X, Y)))), call(C("d", C("h", Y, Z)))))],
         "dj/2": [clause(C("dj", X, Y), or_(and_(call(C("n", X)), call(C("=", Y, A("l")))), and_(call(C("=", X, A("r"))), call(C("n", Y)))))],
         "lst/2": [clause(C("lst", lst([X], Y), Z), conj(call(C("n", X)), call(C("=", Y, lst([Z, X]))), call(C("n", Z))))],
+        # a variable unified with a plain Python constant (an integer) by the = builtin, then further answers
+        "cst/2": [clause(C("cst", X, Y), conj(call(C("=", X, I(7))), call(C("n", Y))))],
+        "cst2/2": [clause(C("cst2", X, Y), conj(call(C("n", Y)), call(C("=", I(8), X))))],
     }
     goals = [(C("pr", V(0), V(1)), 2), (C("st", V(0), V(1)), 2), (C("ct", V(0), V(1)), 2), (C("ite", V(0), V(1)), 2), (C("neg", V(0), V(1)), 2),
              (C("on", V(0), V(1)), 2), (C("fa", V(0), V(1)), 2), (C("cl", V(0), V(1)), 2), (C("rt", V(0), V(1)), 2), (C("as", V(0), V(1)), 2),
              (C("dj", V(0), V(1)), 2), (C("lst", V(0), V(1)), 2), (C("pr", V(0), V(0)), 1), (C("st", C("f", V(0), V(1)), V(2)), 3),
              (C("=", C("f", V(0), V(1)), C("f", A("a"), lst([V(0)]))), 2), (C("findall", V(0), C("n", V(0)), V(1)), 2), (C("retract", C("d", V(0))), 1),
-             (C("once", C("n", V(0))), 1), (C("call", C("pr", V(0)), V(1)), 2)]
+             (C("once", C("n", V(0))), 1), (C("call", C("pr", V(0)), V(1)), 2),
+             (C("=", V(0), I(7)), 1), (C("=", I(7), V(0)), 1), (C("=", V(0), A("k")), 1), (C("cst", V(0), V(1)), 2), (C("cst2", V(0), V(1)), 2),
+             (C("\\=", V(0), I(7)), 1)]
     scns = []
     for g, qnv in goals:
         steps = [[{"op": "load", "e": 1, "script": "P", "ow": True}],
